@@ -347,6 +347,29 @@ def stage_slots(ctx: Ctx):
                     if d or tuple(got) != (1, 1):
                         ctx.violation(f'sub-struct|virtual-field-capture|{holder}', 'a slot filled with a quantifier capture over a merged virtual field does not hold exactly the captured elements',
                                       {**rec, 'after': root.src, 'counts': list(got), 'diffs': d})
+    # loop= when a STATEMENT is replaced by several statements: the rounds go on at the first of them (what replace() returns) while it still matches
+    from fst.match import MWhile as _MWh
+    for src, mk, template, loopv, want, counts in [
+            ('if a:\n    if b:\n        if c:\n            x\nz\n', lambda: _MIf(test=M(t=...), body=[_MIf(test=M(u=...), body=M(b=...), orelse=[])], orelse=[]), 'if f(__FST_t, __FST_u):\n    __FST_b\nmark()', True,
+             'if f(f(a, b), c):\n    x\nmark()\nmark()\nz\n', (1, 2)),
+            ('if a:\n    if b:\n        if c:\n            x\nz\n', lambda: _MIf(test=M(t=...), body=[_MIf(test=M(u=...), body=M(b=...), orelse=[])], orelse=[]), 'if f(__FST_t, __FST_u):\n    __FST_b\nmark()', False,
+             'if f(a, b):\n    if c:\n        x\nmark()\nz\n', (1, 1)),
+            ('if a:\n    if b:\n        if c:\n            if d:\n                x\nz\n', lambda: _MIf(test=M(t=...), body=[_MIf(test=M(u=...), body=M(b=...), orelse=[])], orelse=[]), 'if f(__FST_t, __FST_u):\n    __FST_b\nmark()', 2,
+             'if f(f(a, b), c):\n    if d:\n        x\nmark()\nmark()\nz\n', (1, 2)),
+            ('def g():\n    while a:\n        while b:\n            while c:\n                x\n', lambda: _MWh(test=M(t=...), body=[_MWh(test=M(u=...), body=M(b=...), orelse=[])], orelse=[]), 'while f(__FST_t, __FST_u):\n    __FST_b\nmark()', True,
+             'def g():\n    while f(f(a, b), c):\n        x\n    mark()\n    mark()\n', (1, 2))]:
+        root = fst.FST(src, 'exec')
+        rec = {'src': src, 'template': template, 'loop': loopv, 'expected': want, 'expected_counts': list(counts)}
+        try:
+            got = root.subn(mk(), template, loop=loopv)[1:]
+        except Exception as e:
+            ctx.violation(f'slots-raise|{type(e).__name__}', 'sub(loop=) raised on a several-statement template', {**rec, 'error': repr(e)[:300]})
+            continue
+        ctx.tick(('loop-stmts', src, template, loopv), 'sub:loop-several-statement-template')
+        d = reparse_diffs(root) or cmp_ast(root.a, ast.parse(want), positions=False, ctx=False)
+        if d or tuple(got) != counts:
+            ctx.violation('sub-struct|loop-several-statement-template', 'with loop= the rounds do not go on at the first of the statements that replaced the match (or the counts are not the substitutions performed)',
+                          {**rec, 'after': root.src, 'counts': list(got), 'diffs': d})
     # ctx=True: only the nodes whose expression context is the pattern's are rewritten and counted
     for src, mk, template, want, counts in [('total = total + step\ndel total\n', lambda: ast.Name('total', ast.Load()), 'acc', 'total = acc + step\ndel total\n', (1, 1)),
                                             ('total = total + step\ndel total\n', lambda: ast.Name('total', ast.Store()), 'acc', 'acc = total + step\ndel total\n', (1, 1)),
@@ -408,6 +431,9 @@ LHDR = ('From Coq Require Import List Bool Arith ZArith.\nFrom PF Require Import
         'Definition res_eqb (a b : Z * nat) : bool := Z.eqb (fst a) (fst b) && Nat.eqb (snd a) (snd b).\n')
 
 
+LOOP_FIXED = [(l_, c_) for l_ in (False, True, 2, 0) for c_ in (-1, -3, 0, 1, 2)]
+
+
 def stage_loop(ctx: Ctx):
     """count / loop / callback: per location at most `loop` successive substitutions while the node still matches, the allowance is per location, a callback can
     decline any round, `count` limits the substituted locations; result structure vs successive substitutions, reported counts vs the substitutions performed
@@ -421,7 +447,9 @@ def stage_loop(ctx: Ctx):
         lists = [[rng.choice(names) + str(k) for k in range(rng.randrange(0, 7))] for _ in range(rng.randrange(1, 5))]
         src = '(' + ', '.join('[' + ', '.join(l) + ']' for l in lists) + ',)'
         loop = rng.choice([1, 2, 3, 5, True, 0, False])
-        count = rng.choice([0, 0, 1, 2, 3])
+        count = rng.choice([0, 0, 1, 2, 3, -1, -2])
+        if it < len(LOOP_FIXED):
+            loop, count = LOOP_FIXED[it]          # every kind of loop value with every kind of count, a negative count (no limit, like 0) included
         back = rng.random() < 0.3
         root = fst.FST(src, 'exec')
         pat = MList(elts=[M(first=...), M(second=...), MQSTAR(rest=...)])
@@ -477,7 +505,7 @@ def stage_loop(ctx: Ctx):
         locs = [len(lists[i]) - 1 for i in order if len(lists[i]) >= 2]
         l0 = 'None' if loop is False else f'(Some {0 if loop is True else loop})'
         cbs = '[' + '; '.join(cbool(k in skip_at) for k in range(1, (max(skip_at) if skip_at else 0) + 1)) + ']'
-        terms.append(f'res_eqb (subn_counts [{"; ".join(map(str, locs))}]%nat {l0} {count} {cbs}) ({n_unique}, {n_total}%nat)')
+        terms.append(f'res_eqb (subn_counts [{"; ".join(map(str, locs))}]%nat {l0} {max(count, 0)} {cbs}) ({n_unique}, {n_total}%nat)')     # a negative count is clamped to 0 on entry (the model starts behind the clamp)
         meta.append({**rec, 'locations': locs, 'real_counts': [n_unique, n_total]})
     failed = coq_eval_bools('C18_loop', LHDR, terms, shard=1000)
     ctx.correspondence('models/SubLoop.v subn_counts == counts reported by FST.subn (count x loop x declining callbacks x back, list-merging family)', len(terms), [meta[k] for k in failed])
